@@ -15,7 +15,8 @@ BOUNDS = ("remove on an arbitrary valid container of 1-4 components out of {wate
           "given and default) and get_container_flows['out'] in mol, g, L and U units. Lite model for the direct "
           "cells, delta model for the single-container cells, output roundings always modelled.")
 OUTSIDE = "IEEE rounding; plates larger than 2x2."
-ASSUMPTIONS = ["instruction-text helpers are replaced by non-forking summaries (subject of C19)"]
+ASSUMPTIONS = ["Recipe._rounding_noise (the library's own bound on float rounding noise, the tolerance of get_substance_used's net-decrease test) is 0 in the real-number model, where roundings at internal precision are the identity; native companion runs use the real one",
+               "instruction-text helpers are replaced by non-forking summaries (subject of C19)"]
 EXPECT_OUTCOMES = ['ok']
 
 MIX4 = ['water', 'DMSO', 'NaCl', 'lipase']
